@@ -377,15 +377,37 @@ class RecListP:
 
 
 class GhostSeqP:
-    """append-only sequence of objects appended during this path (e.g. state.tokens tail)"""
+    """append-only sequence of objects appended during this path (e.g. state.tokens tail):
+    base_len pre-existing tokens, then `items` (known prefix), then - once something unknown was appended by a callee or a
+    loop (`gapped`) - tail_len further tokens of which the last ones `tail_items` are known again"""
 
-    __slots__ = ("base_len", "items")
+    __slots__ = ("base_len", "items", "gapped", "tail_len", "tail_items")
 
-    def __init__(self, base_len, items=()):
+    def __init__(self, base_len, items=(), gapped=False, tail_len=None, tail_items=()):
         self.base_len, self.items = base_len, list(items)
+        self.gapped, self.tail_len, self.tail_items = gapped, (z3.IntVal(0) if tail_len is None else tail_len), list(tail_items)
 
     def copy(self):
-        return GhostSeqP(self.base_len, self.items)
+        return GhostSeqP(self.base_len, self.items, self.gapped, self.tail_len, self.tail_items)
+
+    def append(self, x):
+        if self.gapped:
+            self.tail_items.append(x)
+            self.tail_len = self.tail_len + 1
+        else:
+            self.items.append(x)
+
+    def total(self):
+        return self.base_len + len(self.items) + self.tail_len
+
+
+class VGapTuple(V):
+    """new_tokens(state) when unknown tokens lie between the known first and last ones"""
+
+    __slots__ = ("head", "tail")
+
+    def __init__(self, head, tail):
+        self.head, self.tail = list(head), list(tail)
 
 
 class PyDictP:
